@@ -31,6 +31,7 @@ func c04Parent(c *mon.Ctx) {
 	sh := shards("plain", "pairs", 2)
 	sh = append(sh, shards("plain", "catalogue", 2)...)
 	sh = append(sh, shards("plain", "compound", 1)...)
+	sh = append(sh, shards("plain", "soup", 2, "-n", fmt.Sprint(per*4))...)
 	sh = append(sh, shards("plain", "random", 10, "-n", fmt.Sprint(per))...)
 	sh = append(sh, shards("plain", "statements", 2, "-n", fmt.Sprint(per/2))...)
 	res := c.RunShards(sh, 16)
@@ -41,7 +42,7 @@ func tokClass(t models.Token) lexgen.Class {
 	switch t.Type {
 	case models.TokenTypeNumber:
 		return lexgen.Number
-	case models.TokenTypeString, models.TokenTypeSingleQuotedString:
+	case models.TokenTypeString, models.TokenTypeSingleQuotedString, models.TokenTypeTripleSingleQuotedString, models.TokenTypeTripleDoubleQuotedString:
 		return lexgen.String
 	case models.TokenTypeDoubleQuotedString:
 		return lexgen.QIdent
@@ -281,6 +282,24 @@ func c04Child(a *ChildArgs) {
 				}
 			}
 		}
+	case "soup":
+		// texts not built from the reference grammar: character soup over an SQL-ish alphabet. No expectation about
+		// acceptance; when the text is accepted, nothing of it may be lost: every byte lies in a token span, in a comment
+		// or is blank, spans are ordered, and a token whose kind has no decoding (word, number, operator, placeholder)
+		// carries exactly the text of its span
+		alphabet := []string{"a", "b", "sel", "FROM", "1", "23", ".", "5e", " ", " ", "\n", "$", "$$", "$x", "@", ":", "?", "'", "''", "\"", "`", "-", "--", "/", "*", "/*", "*/", "(", ")", ",", ";", "=", "<", ">", "!", "|", "&", "#", "~", "%", "+", "[", "]", "\\", "_", "é"}
+		base := a.Seed*7919 + int64(a.Shard)*104729 + 3
+		for i := 0; i < a.N; i++ {
+			r := rand.New(rand.NewSource(base + int64(i)*15485863))
+			var sb strings.Builder
+			for k := 2 + r.Intn(14); k > 0; k-- {
+				sb.WriteString(alphabet[r.Intn(len(alphabet))])
+			}
+			c04Soup(a, sb.String())
+		}
+		for _, s := range []string{"SELECT $foo FROM t", "SELECT $abc", "$a b$", "SELECT @order by id", "SELECT @left JOIN x", "SELECT \u017Felect", "a$b", "$1x", "$$", "x$$y$$", ":a:b", "??", "?|&", "1e", "1.2.3", "..", "1..2"} {
+			c04Soup(a, s)
+		}
 	case "random":
 		base := a.Seed*7919 + int64(a.Shard)*104729
 		for i := 0; i < a.N; i++ {
@@ -372,6 +391,107 @@ func kvSeqUpper(toks []models.TokenWithSpan) string {
 		fmt.Fprintf(&sb, "%d:%q ", int(t.Token.Type), strings.ToUpper(t.Token.Value))
 	}
 	return sb.String()
+}
+
+// c04Soup applies the nothing-is-lost oracle to an arbitrary text.
+func c04Soup(a *ChildArgs, text string) {
+	a.Rec.Count("evaluations", 1)
+	a.Rec.Distinct("texts", text)
+	tk := mustTokenizer()
+	toks, err := tk.Tokenize([]byte(text))
+	if err != nil {
+		a.Rec.Count("soup_rejected", 1)
+		return
+	}
+	a.Rec.Count("soup_accepted", 1)
+	lines := linesOf(text)
+	plain := true
+	for _, l := range lines {
+		if !l.plain {
+			plain = false
+		}
+	}
+	if !plain {
+		return // columns are only exact on ASCII tab-free lines
+	}
+	wit := map[string]interface{}{"text": text, "tokens": tokTexts(toks)}
+	off := func(l models.Location) int {
+		if l.Line < 1 || l.Line > len(lines) || l.Column < 1 {
+			return -1
+		}
+		o := lines[l.Line-1].start + l.Column - 1
+		if o > len(text) {
+			return -1
+		}
+		return o
+	}
+	covered := make([]bool, len(text))
+	prevEnd := 0
+	for i, t := range toks {
+		if t.Token.Type == models.TokenTypeEOF {
+			continue
+		}
+		s0, e0 := off(t.Start), off(t.End)
+		if s0 < 0 || e0 < s0 || e0 > len(text) || s0 < prevEnd {
+			a.Rec.Viol("C04/soup/span", "exactly the lexical elements of the input, in source order", fmt.Sprintf("token %d %q has span %v-%v (offsets %d-%d, previous end %d)", i, t.Token.Value, t.Start, t.End, s0, e0, prevEnd), wit)
+			return
+		}
+		prevEnd = e0
+		for k := s0; k < e0; k++ {
+			covered[k] = true
+		}
+		src := text[s0:e0]
+		switch tokClass(t.Token) {
+		case lexgen.Word, lexgen.Number, lexgen.Op, lexgen.Placeholder:
+			norm := func(x string) string { return strings.ToUpper(strings.Join(strings.Fields(stripComments(x)), " ")) }
+			if norm(src) != norm(t.Token.Value) {
+				a.Rec.Viol("C04/soup/value-vs-span/"+tokClass(t.Token).String(), "each element with its value; nothing added, dropped or merged", fmt.Sprintf("token %d has value %q but covers the text %q", i, t.Token.Value, src), wit)
+				return
+			}
+		}
+	}
+	for _, c := range tk.Comments {
+		s0, e0 := off(c.Start), off(c.End)
+		if s0 >= 0 && e0 >= s0 && e0 <= len(text) {
+			for k := s0; k < e0; k++ {
+				covered[k] = true
+			}
+		}
+	}
+	for k := 0; k < len(text); k++ {
+		if !covered[k] && text[k] != ' ' && text[k] != '\n' && text[k] != '\r' {
+			a.Rec.Viol("C04/soup/byte-lost", "nothing of the input is dropped", fmt.Sprintf("byte %d %q belongs to no token and no comment", k, text[k]), wit)
+			return
+		}
+	}
+}
+
+// stripComments removes /* */ and -- comments (for compound keywords merged across a comment).
+func stripComments(s string) string {
+	for {
+		i := strings.Index(s, "/*")
+		if i < 0 {
+			break
+		}
+		j := strings.Index(s[i+2:], "*/")
+		if j < 0 {
+			break
+		}
+		s = s[:i] + " " + s[i+2+j+2:]
+	}
+	for {
+		i := strings.Index(s, "--")
+		if i < 0 {
+			break
+		}
+		j := strings.IndexByte(s[i:], '\n')
+		if j < 0 {
+			s = s[:i]
+			break
+		}
+		s = s[:i] + " " + s[i+j:]
+	}
+	return s
 }
 
 func mustParse(sql string) interface{} {
